@@ -12,6 +12,7 @@ import Depccg.Read.Deriv
 import Depccg.Read.Prolog
 import Depccg.Read.Conll
 import Depccg.Read.Json
+import Depccg.Read.XmlText
 
 namespace Depccg
 namespace OpsMore
@@ -83,6 +84,24 @@ def dispatch (op : String) (ts : List String) : Option String :=
         | some (b, []) => encExcept encStr (Xml.jiggText (u == "1") b)
         | _ => "bad-op")
       | [] => "bad-op")
+  | "read_xml_text" => some (match pLang ts with
+      | some (lang, rest) => (match pStr rest with
+        | some (s, []) => (match Read.readXmlText s with
+          | none => "unreadable"
+          | some ccgs => (match OpsXml.readXmlAll lang ccgs with
+            | .ok rs => "ok " ++ OpsXml.encReads rs
+            | .error e => "err " ++ e.name))
+        | _ => "bad-op")
+      | none => "bad-op")
+  | "read_jigg_text" => some (match pLang ts with
+      | some (lang, rest) => (match pStr rest with
+        | some (s, []) => (match Read.readJiggText s with
+          | none => "unreadable"
+          | some ss => (match OpsXml.readJiggAll lang ss with
+            | .ok rs => "ok " ++ OpsXml.encReads rs
+            | .error e => "err " ++ e.name))
+        | _ => "bad-op")
+      | none => "bad-op")
   | "json_read" => some (match pStr ts with
       | some (s, []) => (match Read.readJsonOutput s with
         | some sents => "ok " ++ toString sents.length ++ String.join (sents.map fun (n, es) =>
